@@ -83,9 +83,10 @@ class C11(ProtoSpec):
         n = mon.n_events
         evs = []
         if not mon.split:
-            # prefix: no ticks before the split (the split itself runs one sweep in both worlds)
+            # prefix: commands and sweeps (the split always happens at world K's next timer instant, so both
+            # worlds stay on the same sweep lattice whatever was ticked before)
             if n < self.d1:
-                evs = [e for e in self.driver.enabled(worlds[0], mon, mon.counters) if e[0] != "tick"]
+                evs = list(self.driver.enabled(worlds[0], mon, mon.counters))
             if any(g.app is not None for g in mon.conns.values()):
                 evs.append(("split",))
             return evs
